@@ -107,11 +107,8 @@ def snapshot (s : St) : String :=
 
 /-- The invariants proved in `Props/C16..C18`, evaluated on the concrete state (used by the
 harness to cross-check that the executable predicates agree with what it observes). -/
-def locCount (s : St) (j : Serial) : Nat :=
-  s.queued.count j + (s.mail.map (·.job)).count j + (s.running.map (·.2)).count j
-
 def invOk (s : St) : Bool :=
-  (List.range s.jobs.length).all fun j => s.done j || locCount s j == 1
+  (List.range s.jobs.length).all fun j => s.done j || s.loc j == 1
 
 partial def loop (h : IO.FS.Stream) (out : IO.FS.Stream) (s : St) : IO Unit := do
   let line ← h.getLine
